@@ -98,6 +98,7 @@ class FieldCtx:
         self.u32_axiom = u32_axiom
         self.axioms_used = set()
         self.expand_limit = 16
+        self.exact_int = []  # exact definitions of integer UFs (imul, band, quotients) for concrete validation runs
         self.mono = {}  # monomial atom name -> {base atom: exponent}
         self.mono_names = {}  # canonical monomial key -> atom name
         self.red_defs = []  # (v, q, Lin): v = lin mod p, q = (lin - v) / p  (functional definitions)
@@ -159,6 +160,18 @@ class FieldCtx:
         self.values[key] = v
         self.red_defs.append((v, q, l))
         return v
+
+    def lin_of_value(self, e):
+        """the linear form whose canonical value is the z3 constant e (atom or reduction variable)"""
+        if not z3.is_const(e) or e.decl().kind() != z3.Z3_OP_UNINTERPRETED:
+            return None
+        name = e.decl().name()
+        if name in self.atoms:
+            return Lin({name: 1})
+        for v, q, l in self.red_defs:
+            if v.decl().name() == name:
+                return l
+        return None
 
     def is_zero(self, l):
         """z3 Bool: linear form == 0 (mod p)"""
